@@ -151,7 +151,10 @@ CHECKS = {
              "c08_no_duplicates, c08_no_merge_identity). First pass, grouping by kind under one identifier (after the fix): c08_groupByKind_spec - "
              "for every list of records each record lands in exactly one group, each group holds one kind, different groups have different "
              "kinds and the group sizes add up to the list length; c08_same_group_iff_same_kind (two records are merged candidates iff they "
-             "have the same kind). Merging through copy/add_attributes is mirrored in the model (its content side is C09's re-creation theorem); unified() of documents and bundles compared with an independent specification "
+             "have the same kind). Content of a merge: loop_merge - whenever `merged.add_attributes(other.attributes)` succeeds, for ANY accumulator "
+             "record and ANY attribute list of a stored record, every offered (attribute, value) is represented in the result (inserted, or "
+             "already present as an equal value under the single-value guard), everything the accumulator held is kept, and nothing else appears "
+             "(addOne_general; built on C09's re-creation lemmas); unified() of documents and bundles compared with an independent specification "
              "(union of attributes, first-occurrence order, ProvException iff formal conflict), idempotence, source unchanged.",
         note=A_COMMON + " Known finding C08-1: unified() registers namespaces in a source bundle. Identified membership records are not claimed.",
         technique="Lean 4 list lemmas on the placement pass + op-sequence correspondence + independent unification spec",
